@@ -1,18 +1,12 @@
 ----------------------------- MODULE ScopeTrace -----------------------------
 (***************************************************************************)
-(* C07, Layer 1: what an identifier occurrence denotes (ECMA-262 5.1       *)
-(* section 10: function scope, hoisting of var and function declarations,  *)
-(* parameters, the own name of a named function expression in a scope of   *)
-(* its own, the catch parameter scoped to the catch block) - and the       *)
-(* property, judged on recorded renamings.                                 *)
+(* C07, code -> spec: renamings recorded from the real obfuscating         *)
+(* printers, judged by the scope semantics of ScopeSem.tla.                *)
 (*                                                                         *)
-(* record: scopes  <<kind, parent>>  kind in program / function / fname /  *)
-(*                 catch; parent 0 for the program                         *)
-(*         occs    <<scope, role, old, new>>  role in param / var /        *)
-(*                 funcdecl / fname / catchparam / ref / prop              *)
+(* record: scopes  <<kind, parent>>, occs <<scope, role, old, new>>,       *)
 (*         globals (obfuscate_globals), reserved (list of reserved words)  *)
 (***************************************************************************)
-EXTENDS Integers, Sequences, FiniteSets, TLC, Json, IOUtils
+EXTENDS ScopeSem, Json, IOUtils
 
 Trace == ndJsonDeserialize(IOEnv.TRACE_FILE)
 
@@ -21,78 +15,10 @@ Init == tid \in 1..Len(Trace)
 Next == UNCHANGED tid
 Spec == Init /\ [][Next]_tid
 
-Sc(t) == Trace[t].scopes
-Oc(t) == Trace[t].occs
-IsVarScope(t, s) == Sc(t)[s][1] \in {"program", "function"}
-
-RECURSIVE FuncScope(_, _)
-FuncScope(t, s) == IF IsVarScope(t, s) THEN s ELSE FuncScope(t, Sc(t)[s][2])
-
-Name(o, which) == IF which = "old" THEN o[3] ELSE o[4]
-
-\* names declared in scope s (with the old or the new spellings)
-Declared(t, s, which) ==
-    {Name(Oc(t)[i], which) : i \in {i \in 1..Len(Oc(t)) :
-        LET o == Oc(t)[i] IN
-        \/ (o[2] \in {"param", "funcdecl", "fname", "catchparam"} /\ o[1] = s)
-        \/ (o[2] = "var" /\ IsVarScope(t, s) /\ FuncScope(t, o[1]) = s)}}
-
-\* the scope chain of s, innermost first
-RECURSIVE Chain(_, _)
-Chain(t, s) == IF s = 0 THEN <<>> ELSE <<s>> \o Chain(t, Sc(t)[s][2])
-
-\* the scope whose binding a name denotes when looked up from scope s
-\* (0: free); decl is the table scope -> declared names.  Not recursive
-\* itself: TLC evaluates the table once per record only then.
-Lookup(t, s, n, decl) ==
-    LET ch == Chain(t, s)
-        hits == {k \in 1..Len(ch) : n \in decl[ch[k]]}
-    IN IF hits = {} THEN 0
-       ELSE ch[CHOOSE k \in hits : \A m \in hits : k <= m]
-
-\* D: one tuple <<i, role, old, new, so, sn>> per occurrence, so / sn the
-\* scope of the binding it denotes before / after (0 free, -1 property);
-\* passed as an argument so that TLC computes it once per record
-Judge(r, D) ==
-    LET V == {d \in D : d[2] # "prop"} IN
-    IF \E d \in D : d[2] = "prop" /\ d[3] # d[4]
-    THEN "property name renamed"
-    ELSE IF \E d \in V : d[5] = 0 /\ d[3] # d[4]
-    THEN "free name renamed"
-    ELSE IF \E d \in V : (d[5] = 0) # (d[6] = 0)
-    THEN "bound / free status changed"
-    ELSE IF ~r.globals /\ \E d \in V : d[5] = 1 /\ d[3] # d[4]
-    THEN "top-level name renamed"
-    \* same variable after iff same before: old -> new denotation is a
-    \* function and it is injective (checked on sets, not on all pairs)
-    ELSE IF LET both == {<< <<d[5], d[3]>>, <<d[6], d[4]>> >> : d \in V} IN
-            \/ Cardinality(both) # Cardinality({p[1] : p \in both})
-            \/ Cardinality(both) # Cardinality({p[2] : p \in both})
-    THEN "binding structure changed"
-    ELSE IF LET res == {r.reserved[k] : k \in 1..Len(r.reserved)} IN
-            \E d \in V : d[3] # d[4] /\ d[4] \in res
-    THEN "generated name is a reserved word"
-    ELSE "ok"
-
-Den(t, declOld, declNew) ==
-    {LET o == Oc(t)[i] IN
-     <<i, o[2], o[3], o[4],
-       IF o[2] = "prop" THEN -1 ELSE Lookup(t, o[1], o[3], declOld),
-       IF o[2] = "prop" THEN -1 ELSE Lookup(t, o[1], o[4], declNew)>>
-     : i \in 1..Len(Oc(t))}
-
-\* scope -> declared names, as an explicit function (k :> v @@ ...): TLC
-\* would re-evaluate the body of [s \in ... |-> Declared(...)] at every
-\* application
-RECURSIVE Table(_, _, _)
-Table(t, k, which) ==
-    IF k = 1 THEN 1 :> Declared(t, 1, which)
-    ELSE Table(t, k - 1, which) @@ (k :> Declared(t, k, which))
-
-\* (tables and denotations are operator arguments, which TLC evaluates once)
 Clause(t) ==
-    Judge(Trace[t], Den(t, Table(t, Len(Sc(t)), "old"),
-                          Table(t, Len(Sc(t)), "new")))
+    LET r == Trace[t] IN
+    ClauseOf(r.scopes, r.occs, r.globals,
+             {r.reserved[k] : k \in 1..Len(r.reserved)})
 
 Verdict == PrintT(ToJson(<<Trace[tid].id, Clause(tid)>>))
 =============================================================================
